@@ -35,7 +35,7 @@ def _scalar_default(t):
     if t == 'str':
         return st.sampled_from(['dflt', '', 'x'])
     if t == 'float':
-        return st.sampled_from([1.5, 0.0])
+        return st.sampled_from([1.5, 0.0, 1.0])
     if t == 'bool':
         return st.booleans()
     return None
@@ -157,6 +157,13 @@ def class_specs(draw, name, earlier, allow_hooks=True):
             c['sav'] = 'raise'
         elif h == 5 and params:
             c['sav'] = {'rebuild': draw(st.sampled_from([q['n'] for q in params]))}
+        elif h == 6 and dparams:
+            q = draw(st.sampled_from(dparams))
+            # (1.0 == True and 0.0 == False: values that collide in an untyped cache)
+            val = q['d']['v']
+            if q['t'] == 'float':
+                val = draw(st.sampled_from([0.0, 1.0, val]))
+            c['sav'] = {'default': q['n'], 'value': val}
         elif h in (3, 4) and (any(p['d'] is not None for p in params) or c['base']):
             c['swe'] = 'defaults'
         c['rec'] = draw(st.integers(0, 7)) == 0
